@@ -468,3 +468,31 @@ func returnedValues(f *ssa.Function, i int) []ssa.Value {
 	}
 	return out
 }
+
+// retValAt resolves result i of a specific return: for defer-spilled results it is the
+// value stored into the result cell in the return's own block (the shape go/ssa emits),
+// otherwise all values stored into the cell.
+func retValAt(ret *ssa.Return, i int) []ssa.Value {
+	if i >= len(ret.Results) {
+		return nil
+	}
+	v := ret.Results[i]
+	u, ok := v.(*ssa.UnOp)
+	if !ok || u.Op != token.MUL {
+		return []ssa.Value{v}
+	}
+	cell, ok := u.X.(*ssa.Alloc)
+	if !ok || cellEscapes(cell) {
+		return []ssa.Value{v}
+	}
+	var last ssa.Value
+	for _, in := range ret.Block().Instrs {
+		if st, ok := in.(*ssa.Store); ok && st.Addr == ssa.Value(cell) {
+			last = st.Val
+		}
+	}
+	if last != nil {
+		return []ssa.Value{last}
+	}
+	return unspill(v)
+}
